@@ -27,6 +27,9 @@ type Case struct {
 	Window  int     `json:"window"`  // 0 = library default (64)
 	FromSrv bool    `json:"fromsrv"` // direction: server writes, client reads
 	Rounds  []Round `json:"rounds"`
+	// Imported (DTLS 1.2): the receiving endpoint is exported and resumed with ResumeWithOptions (same options,
+	// the replay window among them) before the first round
+	Imported bool `json:"imported,omitempty"`
 }
 
 // Round is one arrival sequence over N fresh records.
@@ -93,6 +96,20 @@ func run(c Case, r *pbt.R) {
 		snd, rcv := p.C, p.S
 		if c.FromSrv {
 			snd, rcv = p.S, p.C
+		}
+		if c.Imported && c.Variant != "v13" {
+			ep := &sEP
+			if c.FromSrv {
+				ep = &cEP
+			}
+			if _, err := p.ExportImport(rcv, env, ep, nil); err != nil {
+				r.Failf("C06|harness|import", "export/import of the receiver: %v", err)
+
+				return
+			}
+			_ = rcv.Conn.Handshake()
+			scen.Settle()
+			r.Class("receiver-imported")
 		}
 		rcv.StartReader()
 		scen.Settle()
@@ -361,6 +378,7 @@ func gen(t *rapid.T) Case {
 		Window:  rapid.SampledFrom([]int{0, 1, 2, 3, 8, 63, 64, 65, 128, 1000}).Draw(t, "window"),
 		FromSrv: rapid.Bool().Draw(t, "fromsrv"),
 	}
+	c.Imported = c.Variant != "v13" && rapid.IntRange(0, 3).Draw(t, "imported") == 0
 	nr := rapid.IntRange(1, 4).Draw(t, "rounds")
 	for i := 0; i < nr; i++ {
 		rd := genRound(t, c.Window)
